@@ -553,7 +553,7 @@ func init() {
 	fw.Register(&fw.Prop{
 		ID:    "C15",
 		Level: "model_checking",
-		Rule:  "lifecycle programs: every sequence over {Start, Stop, Restart} of up to 3 calls (thorough: also 4) beginning with Start - including Stop on a stopped and Start on a running server - decorated between calls with {nothing, a client that connects, PINGs and disconnects, a client that PINGs and stays idle}, each also with a trailing client action, plus the variants in which a client thread dials and PINGs concurrently with a Stop/Restart; every schedule of the real Start/Stop/Restart, accept loops and connection goroutines within deviation bound 2 over an in-memory port namespace (bind conflicts, backlog, close); the same programs with the TLS port enabled and clients doing the real crypto/tls handshake (<= 2 calls, bound 1), and once more on a TLS-only server (plain port disabled); 8 programs in which a port is disabled in the configuration (SetPort(0) / SetTLSPort(0)) while the server runs and Stop must still release its listener. Thorough runs further phases in this order, each complete only when its <phase>_done counter equals <phase>_programs: plain <= 3 calls at bound 3; TLS 3 calls at bound 2; TLS <= 2 calls at bound 3; plain 4 calls at bound 2 (caps name the phase the deadline interrupted). Oracle: after Start/Restart returned nil every dial is accepted and PING answered; after Stop returned and quiescence the port can be bound, every client connection is closed, no server goroutine is alive, the registry is empty; while running the registry holds exactly the served connections and an accept loop is parked in Accept. Programs also contain ports disabled while running (d, e), TLS clients whose handshake fails (x, y) and connections whose Close reports an error (k). A program is non-trivial when its schedules produce more than one distinct terminal observation.",
+		Rule:  "lifecycle programs: every sequence over {Start, Stop, Restart} of up to 3 calls (thorough: also 4) beginning with Start - including Stop on a stopped and Start on a running server - decorated between calls with {nothing, a client that connects, PINGs and disconnects, a client that PINGs and stays idle}, each also with a trailing client action, plus the variants in which a client thread dials and PINGs concurrently with a Stop/Restart; every schedule of the real Start/Stop/Restart, accept loops and connection goroutines within deviation bound 2 over an in-memory port namespace (bind conflicts, backlog, close); the same programs with the TLS port enabled and clients doing the real crypto/tls handshake (<= 2 calls, bound 1), and once more on a TLS-only server (plain port disabled); 8 programs in which a port is disabled in the configuration (SetPort(0) / SetTLSPort(0)) while the server runs and Stop must still release its listener. Thorough runs further phases in this order, each complete only when its <phase>_done counter equals <phase>_programs: plain <= 3 calls at bound 3; TLS 3 calls at bound 2; TLS <= 2 calls at bound 3; plain 4 calls at bound 2 (caps name the phase the deadline interrupted). Oracle: after Start/Restart returned nil every dial is accepted and PING answered; after Stop returned and quiescence the port can be bound, every client connection is closed, no server goroutine is alive, the registry is empty; while running the registry holds exactly the served connections and an accept loop is parked in Accept. Programs also contain ports disabled while running (d, e), TLS clients whose handshake fails (x, y) and connections whose Close reports an error (k). Five programs with clients connecting at the same time also run under the happens-before oracle: a data race on the contents of a map is the verdict concurrent-map-access (the Go runtime aborts the process). A program is non-trivial when its schedules produce more than one distinct terminal observation.",
 		Assumptions: []string{
 			"sequentially consistent interleavings; scheduling points at go, mutex, sync.Map, listener and connection operations (plus racy-set accesses)",
 			"programs with TLS clients (real handshake, valid certificate) use up to 2 calls at deviation bound 1 in quick (3 calls, bound 2 in thorough)",
